@@ -32,6 +32,10 @@ namespace Nstd.Rc
   Variants, Xml elements with children, executed with the destructor cascade `runC`) are covered by the `nested_*`
   theorems below.
 
+  Round 7: the constructors and accessors `sCap`, `sLitU`, `sConst`, `sEditTo`, `boxCtor` are `NOp` calls (all `nested_*` theorems and
+  `mt_calls_admitted` quantify over them); the bodies in which only the ORDER of acquire and release matters are no longer tied by a
+  hand translation alone: see PropsTie.lean (`tie_*`: interpretation of the bodies translated from the current headers = `pre`).
+
   OPEN (what is still not covered): in-place writes THROUGH an embedded handle (`v.toString().append` on a box whose
   inner String block is itself shared); the String inside a Variant / Xml::Variant box is still flat content, so the
   cross-kind calls `Variant = String variable` / `String = variant.toString()` are not in the correspondence; boxed
@@ -461,6 +465,30 @@ theorem mt_no_leak_quiescent {n : Nat} {S : Sys} (h : SReach n S) (hq : ∀ t, S
     · right
       intro hd
       exact no v ⟨by omega, hv, by rw [hsl]; rfl, hd⟩
+
+/-- every call of the model — all of Model.lean / Nested.lean including the round-7 constructors and accessors (`sCap`, `sLitU`,
+    `sConst`, `sEditTo`, `boxCtor`), except `d->next = s` — can be started by any thread of the interleaved system `SReach`
+    (its `pre` and `post` lists receive handles only into top-level slots), so `mt_orphans_pending`, `mt_no_leak_quiescent`
+    and, through `Reach`, `mt_safe` … quantify over programs made of these calls under every schedule -/
+theorem mt_calls_admitted (tid : Nat) (op : NOp) (ht : tid < nThreads) (hi : idxOkN op) :
+    (∀ st, LowRecv (preN st tid op)) ∧ (∀ s1, LowRecv (postN s1 tid op)) := lowRecv_lists tid op ht hi
+
+set_option maxRecDepth 8000 in
+/-- non-vacuity (String variables are slots 0..3, Variant 4..7): attach to unterminated memory, `operator const char*()`
+    clones it into an owned block; a String of capacity 8 appended in place; a box built by `Variant(const List&)`, shared by a
+    copy, and both released: every block released exactly once -/
+example : ∃ s, apiRunN (init nTotal) 0
+    [.sLitU 0 [97, 98], .sConst 0, .sCap 1 8, .flat (.sAppend 1 [99]), .sEditTo 1 [67], .boxCtor 4 tagVList [3],
+     .flat (.vCopy 5 4), .boxCtor 4 tagVStr [97], .flat (.vClear 5), .flat (.vClear 4), .flat (.sDel 0), .flat (.sDel 1)] = some s
+    ∧ s.next = 4 ∧ s.freed 0 = 1 ∧ s.freed 1 = 1 ∧ s.freed 2 = 1 ∧ s.freed 3 = 1 ∧ s.viol = 0 := by
+  refine ⟨_, rfl, ?_⟩
+  decide
+
+example : ∃ s, apiRunN (init nTotal) 0 [.sLitU 0 [97, 98], .sConst 0, .sCap 1 8, .flat (.sAppend 1 [99]), .sEditTo 1 [67]] = some s
+    ∧ s.slots 0 = .blk 0 ∧ (s.heap 0).map (·.val) = some [97, 98] ∧ s.slots 1 = .blk 1
+    ∧ (s.heap 1).map (fun b => (b.val, b.cap)) = some ([67], 8) ∧ s.next = 2 := by
+  refine ⟨_, rfl, ?_⟩
+  decide
 
 /-- non-vacuity of the interleaved system: thread 0 builds a list holding a boxed Variant and hands the list variable
     to thread 1, which releases it; in the middle of the cascade (list box deleted, element not yet released) the
